@@ -2,6 +2,7 @@
 From CV Require Import Model.Base Model.Tracing Model.TracingStart Proofs.BaseP Proofs.TracingP.
 From CV Require Proofs.TracingP2 Proofs.TracingP3.
 From CV Require Model.TracingAttr Proofs.TracingAttrP.
+From CV Require Model.TracingFull Proofs.TracingFullP.
 
 (* WHAT THESE THEOREMS DO NOT SAY (review finding H3). The label `TEmit sc m x` already names the scenario `sc` a message
    belongs to; the model has no table from spans to scenarios (the real layer finds the scenario id in the span's
@@ -11,7 +12,9 @@ From CV Require Model.TracingAttr Proofs.TracingAttrP.
    Model/TracingAttr.v (span tree, `scope_lookup` = the id of the OUTERMOST span of the event's scope that carries one,
    the collector's registry, the broadcast of unknown ids): the theorems at the end of this file are about it, and
    Check/C20bCheck.v compares its lookup with the id the REAL `format_event` resolved for every formatted event
-   (trace points of hook 921cc91). The two models are not composed in Coq: C20 stays partial. *)
+   (trace points of hook 921cc91). The two models are COMPOSED in the layer Model/TracingFull.v (last block of this file):
+   there the registration hypothesis of the attribution theorem is a consequence of the protocol. C20 stays partial for the
+   runtime reasons named there (granularity of the forwarder run, logs from other threads, After hooks: K20a). *)
 
 (* for every interleaving of step tasks and forwarder (every label list): when a step's result event is emitted,
    every log sent inside its span has already been forwarded, to the scenario it was emitted for *)
@@ -180,3 +183,82 @@ Theorem C20_monitor_agrees_with_attribution :
     resolved = Some sid /\ sc' = sc.
 Proof. exact TracingAttrP.monitor_agrees_with_attribution. Qed.
 Print Assumptions C20_monitor_agrees_with_attribution.
+
+
+(* ---------- THE TWO MODELS COMPOSED (second review, M2): Model/TracingFull.v ----------
+   A layer over BOTH models. Labels: `FAttempt sid sc rt a p` (the collector registers the fresh id sid for scenario sc with
+   retries rt, the attempt's span a is created carrying sid, nothing above it carries an id), `FStepSpan x sid` (the span of a step
+   or hook of that attempt), `FSpan y p id` (any other span: user spans, nested scenario spans with ANY id), `FEmit m y x` (an
+   event logged in span y at or below the step span x; what is queued is the id the lookup RESOLVES), `FBase l` (the protocol:
+   close, subscribe, forwarder run, result; a forwarded log is delivered to `recipients registry id` AT THAT MOMENT) and
+   `FFinish sid` (the collector forgets sid — enabled only after the results of all steps and hooks of the attempt, which is the
+   runner's order). A run of the layer projects onto a run of the protocol model and onto a well-shaped record stream of the
+   attribution model, so the theorems of both apply. THE COMPOSED THEOREM: a message logged in the span of a step of attempt
+   sid of scenario sc (anywhere below it, nested scenario spans included) is delivered EXACTLY ONCE, as a log of (sc, rt) and of
+   no other scenario or retry counter, BEFORE the step's result — the id is still registered whenever one of its logs is queued
+   (that was the hypothesis of `C20_attribution`; here it follows from `C20_logs_before_result` and the rule of `FFinish`). *)
+Theorem C20_full_projects_on_the_protocol :
+  forall ls s out, TracingFull.fexec TracingFull.finit ls = Some (s, out) ->
+    exists bout, texec tinit (TracingFull.fproj TracingFull.finit ls) = Some (TracingFull.f_base s, bout) /\
+      TracingFullP.fres out = TracingFullP.tres bout /\
+      (forall sc rt m, In (TracingFull.FDeliver sc rt m) out -> exists k, In (TLog k m) bout).
+Proof. exact TracingFullP.projection. Qed.
+Print Assumptions C20_full_projects_on_the_protocol.
+
+Theorem C20_full_projects_on_the_attribution_model :
+  forall ls s out, TracingFull.fexec TracingFull.finit ls = Some (s, out) ->
+    TracingAttr.shaped (TracingFull.frecs TracingFull.finit ls) = true /\
+    TracingFull.f_tbl s = TracingAttr.tbl_of (TracingFull.frecs TracingFull.finit ls) /\
+    TracingFull.f_reg s = TracingAttr.a_reg (TracingAttr.arun (TracingFull.frecs TracingFull.finit ls)) /\
+    TracingFull.f_tbl s = TracingAttr.a_tbl (TracingAttr.arun (TracingFull.frecs TracingFull.finit ls)).
+Proof. exact TracingFullP.projection_attr. Qed.
+Print Assumptions C20_full_projects_on_the_attribution_model.
+
+(* the registration hypothesis is now a consequence: a queued log of a step span of attempt sid carries sid, sid is still
+   registered, and its recipients are exactly [(sc, rt)] *)
+Theorem C20_still_registered_while_a_log_is_queued :
+  forall ls s out lg sid sc rt a p,
+    TracingFull.fexec TracingFull.finit ls = Some (s, out) -> In lg (t_logs (TracingFull.f_base s)) ->
+    In (TracingFull.FStepSpan (l_span lg) sid) ls -> In (TracingFull.FAttempt sid sc rt a p) ls ->
+    l_scen lg = TracingFull.enc (Some sid) /\ alookup sid (TracingFull.f_reg s) = Some (sc, rt) /\
+    TracingAttr.recipients (TracingFull.f_reg s) (TracingFull.dec (l_scen lg)) = [(sc, rt)].
+Proof. exact TracingFullP.still_registered_while_queued. Qed.
+Print Assumptions C20_still_registered_while_a_log_is_queued.
+
+(* at most once and to no other scenario or retry counter, in EVERY run (message ids unique) ... *)
+Theorem C20_delivered_at_most_once_and_only_to_its_attempt :
+  forall ls s out m y x sid sc rt a p,
+    TracingFull.fexec TracingFull.finit ls = Some (s, out) -> NoDup (TracingFull.fmsgs ls) ->
+    In (TracingFull.FEmit m y x) ls -> In (TracingFull.FStepSpan x sid) ls -> In (TracingFull.FAttempt sid sc rt a p) ls ->
+    (TracingFull.dels m out = [] \/ TracingFull.dels m out = [TracingFull.FDeliver sc rt m]) /\
+    (forall sc' rt', In (TracingFull.FDeliver sc' rt' m) out -> sc' = sc /\ rt' = rt).
+Proof. exact TracingFullP.delivered_at_most_once_to_emitter. Qed.
+Print Assumptions C20_delivered_at_most_once_and_only_to_its_attempt.
+
+(* ... EXACTLY once, before the result of its step, nothing of it after *)
+Theorem C20_delivered_exactly_once_before_the_result :
+  forall ls s out m y x sid sc rt a p o1 o2,
+    TracingFull.fexec TracingFull.finit ls = Some (s, out) -> NoDup (TracingFull.fmsgs ls) ->
+    In (TracingFull.FEmit m y x) ls -> In (TracingFull.FStepSpan x sid) ls -> In (TracingFull.FAttempt sid sc rt a p) ls ->
+    out = o1 ++ TracingFull.FRes x :: o2 ->
+    TracingFull.dels m o1 = [TracingFull.FDeliver sc rt m] /\ TracingFull.dels m o2 = [] /\
+    TracingFull.dels m out = [TracingFull.FDeliver sc rt m].
+Proof. exact TracingFullP.delivered_once_before_result. Qed.
+Print Assumptions C20_delivered_exactly_once_before_the_result.
+
+(* ... never after the collector has forgotten the attempt *)
+Theorem C20_delivered_before_the_attempt_is_forgotten :
+  forall l1 l2 s out m y x sid sc rt a p,
+    let ls := l1 ++ TracingFull.FFinish sid :: l2 in
+    TracingFull.fexec TracingFull.finit ls = Some (s, out) -> NoDup (TracingFull.fmsgs ls) ->
+    In (TracingFull.FEmit m y x) ls -> In (TracingFull.FStepSpan x sid) ls -> In (TracingFull.FAttempt sid sc rt a p) ls ->
+    exists s1 o1 o2, TracingFull.fexec TracingFull.finit l1 = Some (s1, o1) /\ out = o1 ++ o2 /\
+      In (TracingFull.FEmit m y x) l1 /\ TracingFull.dels m o1 = [TracingFull.FDeliver sc rt m] /\ TracingFull.dels m o2 = [].
+Proof. exact TracingFullP.delivered_before_finish. Qed.
+Print Assumptions C20_delivered_before_the_attempt_is_forgotten.
+
+(* the reviewer's run (resolve to id 1, forget id 1, then deliver to another scenario) is not a run of the layer; a run with two
+   concurrent attempts, a retry with a new id, a user span and a nested scenario span carrying ANOTHER scenario's registered id is *)
+Example C20_full_nonvacuous :
+  TracingFull.fexec TracingFull.finit TracingFullP.ex_full <> None.
+Proof. vm_compute. discriminate. Qed.
